@@ -297,7 +297,9 @@ func checkC14(e *core.Env) {
 		cerr := ch.Invoke(context.Background(), Unary.Method(), &tpb.Message{}, new(tpb.Message), c14CallOpts()[oi]...)
 		e.Eval(fmt.Sprintf("prec|%d|%d|%s|body%d", st/100, code, c14OptNames[oi], bodyKind), true)
 		if code == 0 {
-			if cerr != nil {
+			// a header that says OK on top of a non-2xx status contradicts itself; the statement fixes the outcome
+			// only where the two agree
+			if cerr != nil && st >= 200 && st < 300 {
 				e.Violate("precedence/ok-header", fmt.Sprintf("HTTP %d with X-GRPC-Status 0: client saw %v", st, cerr), nil)
 			}
 			return
